@@ -4,6 +4,9 @@ from . import mkimage
 from .mkimage import get32, put32, fix_sum
 
 
+EXTRA = {}      # (block, offset) -> additional values worth trying for that field (computed from the image)
+
+
 def metadata_fields(img, n, dec_owned, flav):
     """enumerate (block, offset, width, name, kind-of-block) for the metadata blocks reached by the decoder"""
     root = n // 2
@@ -47,6 +50,28 @@ def metadata_fields(img, n, dec_owned, flav):
             out.append((b, 24 + 23, 1, "rec0.nLen", "cache"))
             nl = blk[24 + 23]
             out.append((b, 24 + 24 + nl, 1, "rec0.cLen", "cache"))
+            # the later records: lengths that make a record end exactly at / one byte past / far past the 488-byte record area
+            nrec = struct.unpack(">i", blk[12:16])[0]
+            p_ = 0
+            recs_ = []
+            for _ in range(max(0, min(nrec, 40))):
+                if p_ + 25 > 488:
+                    break
+                nl_ = blk[24 + p_ + 23]
+                if p_ + 24 + nl_ >= 488:
+                    break
+                cl_ = blk[24 + p_ + 24 + nl_]
+                recs_.append((p_, nl_, cl_))
+                ln_ = 25 + nl_ + cl_
+                p_ += ln_ + (ln_ & 1)
+            for (p_, nl_, cl_) in (recs_[-1:] + recs_[len(recs_) // 2: len(recs_) // 2 + 1] if len(recs_) > 1 else []):
+                fn_ = (b, 24 + p_ + 23, 1, "recN.nLen", "cache")
+                fc_ = (b, 24 + p_ + 24 + nl_, 1, "recN.cLen", "cache")
+                out.append(fn_)
+                out.append(fc_)
+                room = 488 - (p_ + 25 + nl_)
+                EXTRA[(fc_[0], fc_[1])] = [v for v in (room - 1, room, room + 1, room + 2, 79, 80) if 0 <= v <= 255]
+                EXTRA[(fn_[0], fn_[1])] = [v for v in (488 - p_ - 26, 488 - p_ - 25, 488 - p_ - 24, 30, 31) if 0 <= v <= 255]
         elif typ == 8 and not (flav & 1):
             for name, off in (("type", 0), ("headerKey", 4), ("seqNum", 8), ("dataSize", 12), ("nextData", 16)):
                 out.append((b, off, 4, name, "ofsdata"))
